@@ -43,6 +43,17 @@ static CMB_THREAD_LOCAL double sim_time = 0.0;
  */
 static CMB_THREAD_LOCAL struct cmi_hashheap *event_queue = NULL;
 
+#ifdef CIMBA_VERIF
+/*
+ * Verification hook H3 (guard CIMBA_VERIF): read-only access to the thread's
+ * event queue for structural checks and canonical state dumps.
+ */
+struct cmi_hashheap *cmi_verif_event_queue(void)
+{
+    return event_queue;
+}
+#endif /* CIMBA_VERIF */
+
 /* The initial capacity of the heap is 2^QUEUE_INIT_EXP items, resizing as needed */
 #define QUEUE_INIT_EXP 3
 
